@@ -334,7 +334,17 @@ type env struct {
 	histMode   bool
 	histLast   uint64
 	unexpected int
+
+	// Schedule variation (not visible in the operation lines): when HEAD is followed by SUBERR and the head
+	// number is odd, the subscription error is injected while the handler is busy - right after the first
+	// eth_getLogs answer of the head, before any entry is received - instead of after the head.  The stream
+	// must not depend on that ("regardless of ... subscription failures"): the entry that is waiting to be
+	// handed over when the subscription fails must still arrive.
+	busyErr    bool // armed for the current HEAD
+	errPlanted bool // the subscription error of the following SUBERR line is already in flight
 }
+
+const busyFor = 120 * time.Millisecond
 
 // HandleBlockEventsStream makes env the eventsyncer.EventHandler: the driver loop itself reads the
 // channel the execution client writes to.
@@ -468,6 +478,14 @@ func (e *env) wait(logs <-chan executionclient.BlockLogs, head bool) int {
 				}
 			default:
 				r.reply <- repOK
+				if e.busyErr && i == 0 {
+					e.busyErr = false
+					time.Sleep(busyFor / 3) // the client packs the answer and offers the first entry
+					e.node.notifyBogus()
+					e.errPlanted = true
+					e.out.Count("schedule-suberr-while-handler-busy")
+					time.Sleep(busyFor) // ... while the handler is still busy with something else
+				}
 			}
 		case v := <-e.met.ch:
 			e.ms = append(e.ms, v)
@@ -584,11 +602,15 @@ func (e *env) event(logs <-chan executionclient.BlockLogs, w []string) {
 		if h >= e.follow {
 			e.mon.allow(h - e.follow)
 		}
+		e.busyErr = !e.fs.on && h%2 == 1 && e.pos < len(e.lines) && e.lines[e.pos][0] == "SUBERR"
+		e.errPlanted = false
 		e.node.notifyHead(h)
 		if h < e.follow || h-e.follow < e.cursor {
+			e.busyErr = false
 			break // the client ignores this head: nothing to wait for
 		}
 		e.state = e.wait(logs, true)
+		e.busyErr = false
 		if e.state == stIdle {
 			e.cursor = e.ms[1] // the client's own report of where it continues
 			e.mon.complete(h - e.follow)
@@ -598,7 +620,10 @@ func (e *env) event(logs <-chan executionclient.BlockLogs, w []string) {
 			e.out.Obs("ign")
 			return
 		}
-		e.node.notifyBogus()
+		if !e.errPlanted {
+			e.node.notifyBogus()
+		}
+		e.errPlanted = false
 		e.state = e.wait(logs, false)
 	case "DROP":
 		if e.state != stIdle {
